@@ -624,7 +624,7 @@ def check_mapalign(res, facts):
     position.  Any selective adaptor (filter, skip, take, rev ...) has to act on both sides alike (`retain` on the map before
     both collections does); a helper that collects one side is followed into its body."""
     from rules.c07 import E, show
-    rule = res.rule("R-MAPALIGN", "HashMapPippenger: the base vector and the scalar vector handed to msm_bigint are collected from the same map with the same selection (paired by position)", 2)
+    rule = res.rule("R-MAPALIGN", "HashMapPippenger: the base vector and the scalar vector handed to msm_bigint are collected from the same map with the same selection (paired by position)", 1)
     SEL = {"filter", "filter_map", "skip", "skip_while", "take", "take_while", "step_by", "rev", "map_while", "dedup", "chunks", "sorted", "sort"}
     HEAD = "ark_ec::scalar_mul::variable_base::stream_pippenger::HashMapPippenger"
     fns = [f for f in facts.fns(unit="ws", crate="ark_ec") if f.kind != "Closure" and f.self_head == HEAD]
